@@ -319,7 +319,12 @@ func (u *upstream) updateClients(clients map[string]*client) {
 }
 
 func (u *upstream) handleRedirection(req *simpleRequest, resp *RespValue) {
+	// MOVED <slot> <addr> or ASK <slot> <addr>
 	err := strings.Split(string(resp.Text), " ")
+	if len(err) != 3 {
+		req.SetResponse(resp)
+		return
+	}
 	hostAddr := err[2]
 	switch strings.ToLower(err[0]) {
 	case MOVED:
@@ -331,6 +336,9 @@ func (u *upstream) handleRedirection(req *simpleRequest, resp *RespValue) {
 		))
 		u.MakeRequestToHost(hostAddr, askingReq)
 		u.MakeRequestToHost(hostAddr, req)
+	default:
+		req.SetResponse(resp)
+		return
 	}
 	u.triggerSlotsRefresh()
 }
